@@ -36,6 +36,22 @@ func libDump(expr string) (dump string, err error, pan interface{}) {
 			dump = jp.VerifDumpAST(n)
 		}
 	})
+	if pan != nil {
+		return
+	}
+	// a Parser object is reusable: the one shared by the whole process must say the same
+	// as a fresh one; when it does not, its answer is the one judged
+	n2, err2, pan2 := sharedParse(expr)
+	if pan2 != nil {
+		return "", nil, pan2
+	}
+	dump2 := ""
+	if err2 == nil {
+		dump2 = jp.VerifDumpAST(n2)
+	}
+	if (err2 == nil) != (err == nil) || dump2 != dump {
+		return dump2, err2, nil
+	}
 	return
 }
 
@@ -54,6 +70,16 @@ func predLang(c Case) (r Result) {
 		return
 	}
 	accepted := cerr == nil
+	if _, serr, span := sharedParse(c.Expr); span != nil || (serr == nil) != accepted {
+		// a reused Parser decides differently from Compile: judge its verdict
+		if span != nil {
+			r.Violation = "a reused Parser panicked"
+			r.Got = fmt.Sprint(span)
+			return
+		}
+		accepted, cerr = serr == nil, serr
+		r.class("reused-parser-differs")
+	}
 	switch st {
 	case ref.LexOutOfDomain:
 		r.Discard = "out-of-domain:" + why
